@@ -263,20 +263,20 @@ _EXTRA = {
     "C01": " Windows of 32768/32769/40000 samples are judged with a sparse explicit-DFT reference (FFT length must cover the window); azimuth sets include a non-ascending one; FFT requests with a norm keyword, integer-typed centre frequencies and common factors of 1e-18/1e18 are included.",
     "C02": " Integer and float32 spectra must give the float64 result; pairs of FFT grids with equal size but different spacing run inside one root (state carried between grids).",
     "C03": " Descending/unsorted centre-frequency sets and pool members scaled by 1e9/1e-9 are included. The 'alone' references are computed in processes without history (engine/pristine.py), so process-global state cannot make joint and alone runs wrong alike.",
-    "C04": " Tiny (< 0.1 degree) re-orientations, step compositions, orient-modify-orient histories and non-ascending azimuth sets are included.",
-    "C05": " Histories are also explored in touch mode (statistics read after every operation) with manual re-acceptance and compound mask edits; a window with exactly zero amplitude is included.",
-    "C06": " Calls with find_peaks_kwargs={} (entry peak search takes the early return, earlier rejections persist) and 9-11-window lop-sided sets are included.",
+    "C04": " Tiny (< 0.1 degree) re-orientations, step compositions, orient-modify-orient histories and non-ascending azimuth sets are included. The orientation target of preprocess is spelled with every real number type (int, float, np.int64, np.int32, np.float32, np.float64, 0-d array).",
+    "C05": " Histories are also explored in touch mode (statistics read after every operation) with manual re-acceptance and compound mask edits; a window with exactly zero amplitude is included. Windows that differ by parts per million ('near' roots, rtol 1e-6) are included; every array an accessor returns is overwritten in place and every options dict passed is re-used by the harness before the state is judged (the caller owns them).",
+    "C06": " Calls with find_peaks_kwargs={} (entry peak search takes the early return, earlier rejections persist) and 9-11-window lop-sided sets are included. The alias spelling 'log-normal' and rejections driven through one caller-owned range list (edited in place between calls) are in the menu; after every call the per-window peaks must be those of the range of that call.",
     "C07": " In-memory inputs, one-shot iterables and other containers for read()'s per-recording arguments, mixed-format lists sharing one options dict and non-builtin real numbers given once are included. Same-path histories (failed read, file rewritten, read again; content replaced) are explored per format.",
-    "C08": " Two grids with equal length and end points are explored one after the other inside one root with limits in absolute Hz; touch mode.",
+    "C08": " Two grids with equal length and end points are explored one after the other inside one root with limits in absolute Hz; touch mode. Amplitude transforms (ripple of 1e-6 on a level of 2, amplitudes of order 1e-9 and 1e12), range limits of every real number type and histories that re-use one caller-owned range list are included.",
     "C09": " A numpy array inside a recording's meta and a near-equal time step (0.01 vs float32(0.01)) are included. Fresh-state references are computed in processes without history; centre frequencies are ndarrays or lists; non-default time-step policies are in the menu.",
-    "C11": " Touch mode, manual re-acceptance and compound mask edits (same total, other split), single-frequency curve sets, a finely spaced grid and zero-amplitude windows are included.",
-    "C12": " All four (distribution_mc, distribution_fn) pairs, kwargs that change the selected peak, rejections with a bounded range and non-increasing azimuth sets are included; touch mode.",
+    "C11": " Touch mode, manual re-acceptance and compound mask edits (same total, other split), single-frequency curve sets, a finely spaced grid and zero-amplitude windows are included. 'Near' roots (ppm-scaled windows), the alias spelling 'log-normal', returned arrays overwritten in place, and a model of manual edits (only the addressed entry of the addressed azimuth may change) are included.",
+    "C12": " All four (distribution_mc, distribution_fn) pairs, kwargs that change the selected peak, rejections with a bounded range and non-increasing azimuth sets are included; touch mode. Azimuths a few hundredths of a degree apart, a two-peak set for which the peak options select the lower peak at the default range, and options dicts re-used by the caller are included.",
     "C10": " window_length_in_seconds=None (unsplit) and windows of more than two million sample intervals are included.",
     "C17": " Amplitude scales 1e-9, 1e-12 and 1e9 are included (every tolerance is relative; the diffuse-field ratio must be scale invariant).",
-    "C13": " Amplitude factor 1e-8 and window pairs with equal sample count but different time step are included.",
-    "C15": " Loads into objects that already hold other (richer) content are checked for every class.",
-    "C16": " sigma_f = 0 and pairs of grids with equal length, end points and f0 sample (same explicit range, one process) are included.",
-    "C18": " Touch mode: the recording is checkpointed to disk after every operation.",
+    "C13": " Amplitude factor 1e-8 and window pairs with equal sample count but different time step are included. Amplitude factors 1e-20/1e20, lists of windows of different length (family 'unequal') and a manual rejection on one azimuth after the call (the other azimuths keep the selection) are included.",
+    "C15": " Loads into objects that already hold other (richer) content are checked for every class. Objects constructed from values that the caller, another settings object or a sibling still holds must not share them (family 'construct-from').",
+    "C16": " sigma_f = 0 and pairs of grids with equal length, end points and f0 sample (same explicit range, one process) are included. A peak of prominence 1e-7 (flank kind 'shelf') is included; verbose calls pass the range as a list, which must afterwards still hold what the caller wrote.",
+    "C18": " Touch mode: the recording is checkpointed to disk after every operation. Orientations of NumPy scalar types, returned time vectors shifted in place by the caller, and trims 1e5 time steps into records of 270000-400001 samples are included.",
     "C19": " Mixed --distribution_mc/--distribution_fn runs and two high sampling rates 5.9e-6 s apart (short windows) are included. A settings variant with a nested fft_settings dict is included; the quick file set mixes sampling rates that share one padded FFT length.",
     "C20": " The default call draws the live object of the history, touch mode draws it after every operation, manual re-acceptance and compound mask edits are in the menu.",
 }
